@@ -7,6 +7,9 @@ R-C01-2: converged() returns true only through a comparison that implies value <
          absolute value with the absolute tolerance and the relative value (current/initial of THIS solve) with
          the relative one; an early stop happens only after converged() returned true.
 R-C01-3: the norm switch covers every enumerator with the matching norm expression.
+R-C01-5: the iterate after k passes of the loop is cycle^k(start) for the configured cycle type, extrapolation variant and
+         smoothing counts (start = 0 or the FMG start vector): the dispatch in solve() hands the right cycle the right
+         vectors. (That this iteration converges is numerical and not decided.)
 """
 import itertools
 
@@ -206,6 +209,40 @@ def main(tier):
             ck.ok("R-C01-3", NORM[n])
         else:
             ck.violation("R-C01-3", "solve:norm-%s" % NORM[n], ir.locstr(solve_fn), "no stop test used the %s norm expression in its mode" % NORM[n])
+    # ---- R-C01-5: what the iteration iterates: after k passes of the loop the level-0 iterate is cycle^k(start), with the
+    # cycle type and the extrapolation variant the options select (the dispatch in solve() is checked by no other rule)
+    ck.rule("R-C01-5", "the iterate solve() returns after k iterations == k applications of the configured cycle (type, extrapolation variant, smoothing counts) to the start vector", floor=40)
+    Ls5 = [2, 3] if tier == "quick" else [2, 3, 4]
+    for ext, cyc, fmg, L, mi in itertools.product(range(4), range(3), (False, True), Ls5, (1, 2)):
+        if tier == "quick" and L == 3 and mi == 2 and cyc != 0:
+            continue
+        mode = {"L": L, "FMG": fmg, "FMG_iterations": 1, "FMG_cycle": (cyc + 1) % 3, "extrapolation": ext, "cycle": cyc, "nu1": 1, "nu2": 1,
+                "max_iterations": mi, "abs_tol": False, "rel_tol": False, "exact": False, "norm": 0}
+        what = "ext=%s cycle=%s FMG=%s(start-up cycle %s) L=%d iterations=%d" % (EXT[ext], KN[cyc], fmg, KN[(cyc + 1) % 3], L, mi)
+        ck.instance("R-C01-5", what)
+        outs = sr.scenario_fresh(prog, mode, with_accessors=False)
+        is_ext = ext != 0
+        fgs = ext in (0, 2, 3)
+        rhs = setup_rhs(L, fmg, is_ext)
+        orc = Oracle(L, 1, 1, is_ext, fgs, rhs)
+        want = orc.fmg((cyc + 1) % 3, 1) if fmg else LC.zero()
+        for _ in range(mi):
+            want = orc.cycle(cyc, 0, want, rhs[0], ext_top=is_ext)
+        probs = []
+        if len(outs) != 1:
+            probs.append("%d paths without any tolerance enabled (expected one)" % len(outs))
+        for o in outs:
+            if o.throws:
+                probs.append("throws %s" % o.throws.what)
+            elif o.solution is not want:
+                probs.append("the returned iterate is\n      %s\n    but %d x %s-cycle (%s) from the start vector gives\n      %s" % (
+                    show(o.solution)[:400], mi, KN[cyc], "implicitly extrapolated" if is_ext else "plain", show(want)[:400]))
+            if o.iterations != mi:
+                probs.append("number_of_iterations_ is %s after %d passes" % (o.iterations, mi))
+        if probs:
+            ck.violation("R-C01-5", "solve:iteration:%s" % KN[cyc], ir.locstr(solve_fn), "%s: %s" % (what, probs[0]))
+        else:
+            ck.ok("R-C01-5", what, sample={"mode": what} if (ext, cyc, fmg, L, mi) == (1, 1, True, 2, 1) else None)
     # ---- R-C01-4: the combination extrapolatedResidual builds (exact table, interpreted from source)
     from fractions import Fraction
     from gmg import dag, symdom, tab_ops
